@@ -18,6 +18,7 @@ def sub(file, old, new, nth=None):
 
 
 from .seeded_catches import SEEDED  # (id, properties observed to catch it)
+from .unfix_catches import UNFIX  # (reverse patch of a fix: commit, properties that re-report the defect)
 
 MUTANTS = [
   # ---- R-BATCH / R-WORLD
@@ -82,4 +83,9 @@ REFACTORS = [
   dict(id="ref:satisfied-negated", subs=[sub("solver.py", "  if jaref >= 0.0:", "  if not (jaref < 0.0):")], silent=["C24"]),
 ]
 
-CATALOGUE = [dict(id=f"seed:{sid}", patch=f"seeded/{sid}/patch.diff", fire=list(props)) for sid, props in SEEDED] + MUTANTS + REFACTORS
+CATALOGUE = (
+  [dict(id=f"seed:{sid}", patch=f"seeded/{sid}/patch.diff", fire=list(props)) for sid, props in SEEDED]
+  + [dict(id=f"unfix:{f[6:-5]}", patch=f"selftest_patches/{f}", fire=list(props)) for f, props in UNFIX]
+  + MUTANTS
+  + REFACTORS
+)
